@@ -10,7 +10,7 @@ EXPLANATION = ("Dimension analysis of the free-running u32 sequence counters (he
                "absolute position as operand except the lap reconstruction `index + (pos / N) * N`, and a checked `distance + const` only under a dominating "
                "bound on that distance -- so no operation can panic or change its answer because a counter wrapped (sufficient for the 'no panic' clause); "
                "(R15.2) no ordered comparison (<, <=, >, >=) has absolute positions on both sides or compares one with a constant; lap-vs-lap comparisons "
-               "are individually listed with the reason they are benign; every fullness/emptiness decision is taken on a wrapping difference; (R15.3) the "
+               "are individually listed with the reason they are benign; a range `a..b` over positions counts as such a comparison (empty once b wrapped); every fullness/emptiness decision is taken on a wrapping difference; (R15.3) the "
                "ring sizes are forced to powers of two by a const the constructors reference, so `pos % N` and `pos / N` are continuous across 2^32.")
 ASSUMPTIONS = ["behavioural equivalence of whole histories across the wrap would need a differential run; decided here: every arithmetic/comparison site on counters is wrap-safe",
                "the mmap log's 64-bit positions are outside the property's container list (2^64 events unreachable); its `1 + tail as u32` length report is noted in DESIGN.md D7"]
@@ -80,6 +80,19 @@ def check(ctx):
                     elif ("Dist" in kinds or "DistB" in kinds) and set(kinds) <= {"Dist", "DistB", "K", "N"}:
                         n_abs_sites += 1
                         ctx.ob("R15.2", f"{short}|{shape}", True, site, f"decision taken on a wrapping difference: `{show(ea)} {op} {show(eb)}`")
+        # a range over positions (`for id in head..tail`) is an ordered comparison in disguise: Range::next tests start < end
+        for blk in sorted(body.reachable):
+            for i, st in enumerate(body.stmts(blk)):
+                if st[0] == "A" and st[2][0] == "Agg" and st[2][1][0] == "Adt" and ("ops::Range" in st[2][1][1]) and len(st[2][2]) == 2:
+                    ea, eb = dg.expr(st[2][2][0]), dg.expr(st[2][2][1])
+                    ka, kb = dm.kind(k, ea), dm.kind(k, eb)
+                    ka = "Abs" if ka == "Abs?" else ka; kb = "Abs" if kb == "Abs?" else kb
+                    if isinstance(ka, tuple) or isinstance(kb, tuple): continue
+                    if ka in ("Abs", "Base") or kb in ("Abs", "Base"):
+                        n_abs_sites += 1
+                        ctx.ob("R15.2", f"{short}|range({ka},{kb})", False, body.loc(blk, i),
+                               f"range `{show(ea)}..{show(eb)}` over free-running positions: it is empty as soon as the end has wrapped and the start has not "
+                               "(leftovers are skipped); iterate over the wrapping distance instead")
         # bitwise arithmetic on positions: only `pos & (N-1)` (== pos % N) is position arithmetic
         for blk in sorted(body.reachable):
             for i, st in enumerate(body.stmts(blk)):
